@@ -13,4 +13,5 @@ let () =
   | [| _; "pis" |] -> Pis_driver.run ()
   | [| _; "path" |] -> Path_driver.run ()
   | [| _; "control" |] -> Control_driver.run ()
+  | [| _; "phs" |] -> Phs_driver.run ()
   | _ -> prerr_endline "usage: ompl_model <heap|...>"; exit 2
